@@ -203,6 +203,8 @@ class Executor:
         self.types = types
         self.oracles = oracles or []   # [(regex, handler(ex, st, callee, args, dest_ty, frame) -> [(st, Outcome)])]
         self.models = list(DEFAULT_MODELS)
+        from iters import ITER_MODELS
+        self.models += ITER_MODELS
         self.loop_bound = loop_bound
         self.max_depth = max_depth
         self.invariants = []         # global facts (enum discriminant ranges, NotNan)
